@@ -62,6 +62,11 @@ pub trait CAd: Send + Sync {
     /// SW: the point with abscissa `coord` (greatest: larger root); TE: the point with ordinate `coord`
     /// (library `get_point_from_{x,y}_unchecked`, i.e. no cofactor clearing); None when no root exists
     fn lift(&self, coord: &[UInt], greatest: bool) -> P<Option<Pt>>;
+    /// coordinates at which the recovery formula of the compressed format degenerates (twisted Edwards: the
+    /// ordinates with a - d*y^2 = 0, which exist exactly on curves with an incomplete law); no point has them
+    fn degenerate_coords(&self) -> Vec<Vec<UInt>> {
+        vec![]
+    }
 }
 
 fn f_of<F: Field>(fi: &FInfo, v: &[UInt]) -> F
@@ -311,6 +316,13 @@ where
     }
     fn lift(&self, coord: &[UInt], greatest: bool) -> P<Option<Pt>> {
         guard(|| te::Affine::<C>::get_point_from_y_unchecked(f_of(&self.0.fi, coord), greatest).map(|a| self.pt(&a).0))
+    }
+    fn degenerate_coords(&self) -> Vec<Vec<UInt>> {
+        // only used to craft input bytes: y0 with d*y0^2 = a (the field square root is C11's business)
+        match C::COEFF_D.inverse().and_then(|di| (C::COEFF_A * di).sqrt()) {
+            Some(y0) if C::COEFF_D * y0 * y0 == C::COEFF_A => vec![flat_of(&self.0.fi, &y0).0, flat_of(&self.0.fi, &-y0).0],
+            _ => vec![],
+        }
     }
 }
 
